@@ -209,4 +209,164 @@ def in_python_domain(ctx, d, v, contract=None):
         return isinstance(v, uuid.UUID) or (isinstance(v, SOpaque) and v.kind == "uuid")
     if k == "errcode":
         return isinstance(v, SOpaque) and v.kind == "enum:ErrorCode" or type(v).__name__ == "ErrorCode"
+    if k in ("carr", "larr"):
+        if isinstance(v, SOpt):
+            v = v.val
+        return v is None or isinstance(v, (tuple, SSeq))
+    if k == "absitem":
+        return isinstance(v, SOpaque) and v.kind == "absitem"
     raise Undecided(f"in_python_domain {d}")
+
+
+# ------------------------------------------------------------------------------ body refines contract (generic)
+def verify_refines(reg, fn, contract, make, unit, compare_on_raise=True):
+    """Run the contract (as the callers see it) and the real body on identical generic inputs
+    and require identical outcomes: same return value / same exception class, same bytes
+    appended to every sink, same remainder of every source."""
+    res = Result(unit)
+
+    def run(ctx, res=res):
+        a_body, a_spec, pairs, info = make(ctx)
+        it = make_interp(ctx, reg, exclude=fn)
+        try:
+            sv = contract.apply(it, list(a_spec), {})
+            spec_out = Outcome("return", sv)
+        except PyRaise as r:
+            spec_out = Outcome("raise", exc=r.cls)
+        n_pre = len(ctx.obligations)
+        out = run_body(it, fn, list(a_body))
+        if spec_out.kind != out.kind or (out.kind == "raise" and out.exc is not spec_out.exc):
+            path_obligation(res, ctx, f"{unit}/outcome", z3.BoolVal(False), expected=repr(spec_out), got=repr(out), **info)
+        else:
+            if out.kind == "return":
+                path_obligation(res, ctx, f"{unit}/value", tobool(sym_eq(out.value, spec_out.value, ctx)),
+                                expected=repr(spec_out.value), got=repr(out.value), **info)
+            if out.kind == "return" or compare_on_raise:
+                for kind, b, s in pairs:
+                    if kind == "sink":
+                        cond = equalise(ctx, b.out(), s.out())
+                        path_obligation(res, ctx, f"{unit}/bytes-written", tobool(cond), expected=repr(s.out()),
+                                        got=repr(b.out()), **info)
+                    elif out.kind == "return":
+                        cond = equalise(ctx, b.rest(), s.rest())
+                        path_obligation(res, ctx, f"{unit}/remaining-input", tobool(cond), expected=repr(s.rest()),
+                                        got=repr(b.rest()), **info)
+        collect(res, ctx)
+    explore_unit(res, run)
+    return res
+
+
+def verify_read_exact(reg):
+    import kio.serial.readers as R
+    fn = R.read_exact
+    contract = reg.lookup(fn)
+
+    def make(ctx):
+        r = ctx.bytes_const("input")
+        n = SInt(ctx.int_const("n"))
+        b, s = Source(ctx, [Raw(r)]), Source(ctx, [Raw(r)])
+        return [b, n], [s, n], [("source", b, s)], {"source": [Raw(r)], "n": n}
+    return verify_refines(reg, fn, contract, make, "L1/reader/read_exact/refines-contract")
+
+
+def verify_zigzag(reg):
+    import kio.serial.readers as R
+    fn = R._zigzag_decode
+    contract = reg.lookup(fn)
+    out = []
+
+    def make(ctx):
+        v = SInt(ctx.int_const("value", 0))
+        return [v], [v], [], {"value": v}
+    out.append(verify_refines(reg, fn, contract, make, "L1/reader/_zigzag_decode/refines-contract"))
+    # lemma: the contract function inverts zig-zag encoding (spec-level, both widths)
+    res = Result("L1/lemma/zigzag-inverse")
+    for bits in (32, 64):
+        ctx = Ctx()
+        v = ctx.int_const("v", -(2 ** (bits - 1)), 2 ** (bits - 1) - 1)
+        z = kafka.zz(v, bits)
+        back = z3.If(z % 2 == 0, z / 2, -((z + 1) / 2))
+        path_obligation(res, ctx, f"L1/lemma/zigzag-inverse/{bits}", z3.And(back == v, z >= 0, z < 2 ** bits))
+    out.append(res)
+    return out
+
+
+def verify_empty_tagged(reg):
+    import kio.serial.writers as W
+    fn = W.write_empty_tagged_fields
+    contract = reg.lookup(fn)
+
+    def make(ctx):
+        b, s = Sink(ctx), Sink(ctx)
+        return [b], [s], [("sink", b, s)], {}
+    return verify_refines(reg, fn, contract, make, "L1/writer/write_empty_tagged_fields/refines-contract")
+
+
+def verify_tagged_field(reg):
+    """write_tagged_field with an arbitrary contracted payload writer (parametric in the
+    payload encoding: an abstract writer whose contract is `appends Enc(d, value)`)"""
+    import kio.serial.writers as W
+    fn = W.write_tagged_field
+    contract = reg.lookup(fn)
+    results = []
+    for wname in ("write_int32", "write_compact_string", "write_uuid"):
+        wfn = getattr(W, wname)
+        wc = reg.lookup(wfn)
+        for kind in wc.kinds[:1]:
+            def make(ctx, wfn=wfn, wc=wc, kind=kind):
+                b, s = Sink(ctx), Sink(ctx)
+                tag = SInt(ctx.int_const("tag", 0, domains.UV5 - 1))
+                value = generic_arg(ctx, kind, "v")
+                req = wc.requires(ctx, value)
+                if req is not True:
+                    ctx.assume(req)
+                return [b, tag, wfn, value], [s, tag, wfn, value], [("sink", b, s)], {"value": value, "tag": tag}
+            results.append(verify_refines(reg, fn, contract, make,
+                                          f"L1/writer/write_tagged_field[{wname}]/refines-contract"))
+    return results
+
+
+# ------------------------------------------------------------------------------ array combinators (parametric)
+def _abs_item_writer(buffer, item):        # never executed: stands for any contracted item writer
+    raise AssertionError("abstract item writer is specification-only")
+
+
+def _abs_item_reader(buffer):              # never executed: stands for any contracted item reader
+    raise AssertionError("abstract item reader is specification-only")
+
+
+def abstract_item_registry():
+    """registry in which an abstract item codec `absitem` (any encoding of length >= 1 with a
+    writer and a reader satisfying the M/T/G clauses) is available to the array factories"""
+    reg = CS.Registry()
+    wc = CS.WriterContract("abs_item_writer", ("absitem",), [("absitem",)], param="item")
+    rc = CS.ReaderContract("abs_item_reader", ("absitem",), (ValueError,))
+    reg.by_id[id(_abs_item_writer)] = (_abs_item_writer, wc)
+    reg.by_id[id(_abs_item_reader)] = (_abs_item_reader, rc)
+    return reg
+
+
+def verify_arrays():
+    import kio.serial.readers as R
+    import kio.serial.writers as W
+    reg = abstract_item_registry()
+    results = []
+    for factory, kind in ((W.compact_array_writer, "carr"), (W.legacy_array_writer, "larr")):
+        closure = factory(_abs_item_writer)
+        c = reg.lookup(closure)
+        if c is None:
+            r = Result(f"L1/writer/{factory.__name__}")
+            r.undecided.append((r.unit, "closure returned by the factory is not recognised (renamed?)"))
+            results.append(r)
+            continue
+        results += verify_writer(reg, closure, c, label=f"{factory.__name__}[item]")
+    for factory, kind in ((R.compact_array_reader, "carr"), (R.legacy_array_reader, "larr")):
+        closure = factory(_abs_item_reader)
+        c = reg.lookup(closure)
+        if c is None:
+            r = Result(f"L1/reader/{factory.__name__}")
+            r.undecided.append((r.unit, "closure returned by the factory is not recognised (renamed?)"))
+            results.append(r)
+            continue
+        results += verify_reader(reg, closure, c, label=f"{factory.__name__}[item]")
+    return results
